@@ -89,6 +89,13 @@ func (ci *ChunkInfo) updateNeighborChunkInfo(rootCid, cid boson.Address, overlay
 	}
 	bv, ok := ci.ct.presence[rc][over]
 
+	// only data chunks have a position in the availability vector: for any
+	// other chunk of the file (intermediate or manifest chunk read under the
+	// file's context) getCidSort reports 0, which would mark the first data
+	// chunk as present
+	if !ci.isDataChunk(rootCid, cid) {
+		return nil
+	}
 	v := ci.getCidSort(rootCid, cid)
 	bv.Set(v)
 	bit := BitVector{B: bv.Bytes(), Len: bv.Len()}
